@@ -6,7 +6,7 @@ import numpy as np
 from . import common, cons, hand, hist, place, universe, xt
 
 PID = "C03"
-FORMS = ["py", "nd", "ndF", "ndS", "cap", "xobj-other", "xobj-ctx", "xobj-nested", "xobj-slack"]
+FORMS = ["py", "nd", "ndF", "ndS", "cap", "xobj-other", "xobj-ctx", "xobj-nested", "xobj-slack", "ref-same", "ref-foreign", "xobj-view", "xobj-nested-view"]
 PL = ["dirtyhole", "dirtyhole2", "hole", "explicit", "ba-hole", "grown", "al64"]
 
 
@@ -177,6 +177,8 @@ def places_for(tier):
             return PL if (tier == "thorough" or xt.depth(t) <= 1) else ["dirtyhole", "dirtyhole2", "grown"]
         if form in ("cap", "xobj-slack"):
             return ["dirtybig", "dirtybig2"]
+        if form in ("ref-same", "ref-foreign"):
+            return ["cap0"]
         return ["dirtyhole", "dirtyhole2"]
 
     return f
